@@ -12,6 +12,10 @@ import BM.Proofs.AttrsOK
 namespace BM
 open Html Spec
 
+/-- the derived `BEq` on token types is the decidable equality (so that `simp` can compute it) -/
+theorem tt_beq (a b : TT) : (a == b) = decide (a = b) := by
+  cases a <;> cases b <;> rfl
+
 /-- the class of policies the byte-level theorems cover -/
 structure Plain (p : Policy) : Prop where
   noUnsafe : p.allowUnsafe = false
